@@ -5,10 +5,13 @@ import HappyProofs.C16.StoreWB
 import HappyProofs.C16.SoftTtlInv
 import HappyProofs.C16.StoreSeq
 import HappyProofs.C16.OrderLaws
+import HappyProofs.C16.OrderLawsC
+import HappyProofs.C16.OrderLawsD
 import HappyProofs.C16.TierProps
 import HappyProofs.C16.PageProps
 import HappyProofs.C16.WPolProps
 import HappyProofs.C16.ClearFresh
+import HappyProofs.C16.RawMain
 /-!
 # C16 — property theorems
 
@@ -103,8 +106,10 @@ example :
 /-! ### order laws (statements and proofs in `OrderLaws.lean`)
 
 `lru_evicts_least_recent`, `lfu_evicts_least_frequent`, `fifo_evicts_oldest`,
-`ttl_evicts_expired_or_oldest : OrderLaw p0` — after every well-formed history, whatever `evict`
-returns satisfies `PolicySpec.orderOk` for the policy's kind. -/
+`ttl_evicts_expired_or_oldest`, `slru_evicts_probation_first` (`OrderLawsD.lean`),
+`sampled_evicts_lru_of_sample` (`OrderLawsC.lean`, every sample size and every draw) `: OrderLaw p0` —
+after every well-formed history, whatever `evict` returns satisfies `PolicySpec.orderOk` for the
+policy's kind. -/
 
 /-- non-vacuity of the order laws: histories in which `evict` does return a key, and the key the law
     singles out (LRU: 1 after 0 was re-accessed; LFU: 1, touched once; FIFO: 0; TTL 5: 0 expired at 7) -/
@@ -113,6 +118,18 @@ example :
     ((runBoth (.lru {}) {} h).1.evict 7 []).1 = some 1 ∧ ((runBoth (.lfu {}) {} h).1.evict 7 []).1 = some 1 ∧
     ((runBoth (.fifo {}) {} h).1.evict 7 []).1 = some 0 ∧ ((runBoth (.ttl { ttl := 5 }) {} h).1.evict 7 []).1 = some 0 ∧
     (runBoth (.lru {}) {} h).2.wf = true := by decide
+
+/-- non-vacuity of the segmented-LRU and sampled-LRU order laws: 0 is re-accessed (protected), so SLRU
+    evicts 1, the oldest key on probation; sampled LRU with sample size 2 and a draw naming 0 and 2
+    evicts 2 (0 was touched last), although 1 is the least recently used key overall -/
+example :
+    let h := [POp.insert 0 0, .insert 1 0, .insert 2 0, .access 0]
+    ((runBoth (.slru {}) {} h).1.evict 7 []).1 = some 1 ∧
+    ((runBoth (.sampled { size := 2 }) {} h).1.evict 7 [0, 2, 1]).1 = some 2 ∧
+    (runBoth (.slru {}) {} h).2.wf = true ∧
+    orderOk (.sampled 2) (runBoth (.sampled { size := 2 }) {} h).2 7 [0, 2, 1] ⟨2, 2, 2, 1, 0⟩ = true ∧
+    orderOk (.sampled 2) (runBoth (.sampled { size := 2 }) {} h).2 7 [0, 2, 1] ⟨1, 1, 1, 1, 0⟩ = false := by
+  decide
 
 /-! ## Part 2 — `CachedStore` -/
 
@@ -250,14 +267,78 @@ def Schedule (ops : List (Nat × OpK)) (as : List Act) : Prop :=
   (ops.filterMap fun x => match x.2 with | .put _ v => some v | _ => none).Nodup
 
 /-- `read_after_write` at the property's strength: for every interleaving of operation segments the
-    observed run of the repaired store passes the Spec's read clause.  NOT PROVED (see
-    `read_after_write_sequential` for the proved part); every generated overlapping schedule is judged
-    by the same predicate on the implementation's transcript in every run of the check. -/
+    observed run of the repaired store passes the Spec's read clause — a `get` returns the value of a
+    write that no write completed before the `get` was issued entirely follows (or nothing, if no
+    write completed before it).  Proved below (`read_after_write_all_interleavings`). -/
 def read_after_write_full : Prop :=
   ∀ (cfg : Cfg), cfg.rep = true → 1 ≤ cfg.cap →
   ∀ (name : String) (arg : Nat) (p : Pol), Pol.ofName name arg = some p →
   ∀ (ops : List (Nat × OpK)) (as : List Act), Schedule ops as →
     judgeReads cfg ops (obsRun cfg (St.init p) as) = none
+
+theorem sameOp_cases {a b : OpK} (h : sameOp a b = true) :
+    (∃ o1 o2, a = .flush o1 ∧ b = .flush o2) ∨ a = b := by
+  cases a <;> cases b <;> first
+    | exact Or.inl ⟨_, _, rfl, rfl⟩
+    | exact Or.inr (eq_of_beq h)
+
+theorem obsRun_eq (cfg : Cfg) (s : St) (as : List Act) : obsRun cfg s as = obsRunG obsOf cfg s as := by
+  induction as generalizing s with
+  | nil => rfl
+  | cons a as ih =>
+    have : a.opId = actId a := by cases a <;> rfl
+    simp only [obsRun, obsRunG, this, ih]
+
+/-- **`read_after_write` for all interleavings** (repaired store, both write modes, every policy and
+    capacity, every schedule of operation segments — overlapping puts, deletes, misses in flight,
+    evictions, invalidations and flushes alike): the judge's read clause accepts the observed run.
+    The invariant (`RInvA`, files `Raw*.lean`): the cache only ever holds the value of a write that no
+    started write entirely follows; so does the backing store for a clean key, up to the writes whose
+    backing-store write is still in flight; a pending miss with a current epoch has a clean key, so
+    with nothing in flight what it fills is fresh. -/
+theorem read_after_write_all_interleavings : read_after_write_full := by
+  intro cfg hrep _ _ _ p _ ops as hs
+  obtain ⟨hnd, htab, hstart, _⟩ := hs
+  rw [obsRun_eq]
+  refine raw_judge cfg hrep obsOf (fun _ _ _ => rfl) (fun _ _ _ => rfl) ops hnd p as ⟨hstart, ?_, ?_⟩
+  · intro i _ hi; cases hi
+  · intro i op now hm
+    obtain ⟨op', hop, hso⟩ := htab i op now hm
+    exact ⟨op', hop, sameOp_cases hso⟩
+
+/-- non-vacuity: a table and a schedule in which a miss of key 0 is in flight while a put of key 0
+    starts and completes around it (capacity 1, so the put of key 1 evicts key 0 first) is a `Schedule` -/
+example :
+    let ops := [(0, OpK.put 0 1), (1, .put 1 9), (2, .get 0), (3, .put 0 2), (4, .get 0)]
+    let as := [Act.start 0 (.put 0 1) 0, .resume 0 0, .start 1 (.put 1 9) 0, .resume 1 0,
+               .start 2 (.get 0) 0, .start 3 (.put 0 2) 0, .resume 2 0, .resume 3 0,
+               .start 4 (.get 0) 0, .resume 4 0]
+    Schedule ops as := by
+  refine ⟨by decide, ?_, by decide, by decide⟩
+  intro i op now h
+  simp only [List.mem_cons, Act.start.injEq, List.mem_nil_iff, or_false, reduceCtorEq, false_or] at h
+  rcases h with ⟨rfl, rfl, _⟩ | ⟨rfl, rfl, _⟩ | ⟨rfl, rfl, _⟩ | ⟨rfl, rfl, _⟩ | ⟨rfl, rfl, _⟩
+  · exact ⟨.put 0 1, by decide, by decide⟩
+  · exact ⟨.put 1 9, by decide, by decide⟩
+  · exact ⟨.get 0, by decide, by decide⟩
+  · exact ⟨.put 0 2, by decide, by decide⟩
+  · exact ⟨.get 0, by decide, by decide⟩
+
+/-- … on which the repaired store (capacity 1, write-through, LRU) passes the read clause: the miss
+    (get 2) reads the old value 1 from the backing store while put 3 is in flight — allowed, put 3 has
+    not completed — and does **not** fill the cache (older epoch, write in flight), so get 4, issued
+    after put 3 completed, returns 2.  The current code fills, and get 4 returns the overwritten 1. -/
+theorem read_after_write_overlap_witness :
+    let cfg : Cfg := ⟨1, true, true, []⟩
+    let ops := [(0, OpK.put 0 1), (1, .put 1 9), (2, .get 0), (3, .put 0 2), (4, .get 0)]
+    let as := [Act.start 0 (.put 0 1) 0, .resume 0 0, .start 1 (.put 1 9) 0, .resume 1 0,
+               .start 2 (.get 0) 0, .start 3 (.put 0 2) 0, .resume 2 0, .resume 3 0,
+               .start 4 (.get 0) 0, .resume 4 0]
+    judgeReads cfg ops (obsRun cfg (St.init (.lru {})) as) = none ∧
+    (obsRun cfg (St.init (.lru {})) as).map (·.res) =
+      [none, some .none, none, some .none, none, none, some (.val 1), some .none, none, some (.val 2)] ∧
+    judgeReads { cfg with rep := false } ops (obsRun { cfg with rep := false } (St.init (.lru {})) as)
+      = some "store/read-after-write/stale/wt/after-put" := by decide
 
 /-- `read_after_write`, proved part: when operations do not overlap (each runs all its segments
     before the next starts — `execOp`), the repaired store with any policy, capacity ≥ 1 and either
